@@ -1,6 +1,6 @@
 import KV.Base.Hex
 /-!
-# KVM single-frame interpreter (model of `/repo/kvm`, property C10)
+# KVM interpreter with nested CALL / STATICCALL frames (model of `/repo/kvm`, property C10)
 
 Transcribes, branch by branch, `Interpreter.Run` (`interpreter.go`), the per-opcode functions of
 `instructions.go`, the jump tables of `instruction_set.go` (`opInfo`, written by hand here and meant
@@ -10,9 +10,12 @@ to be compared with the regenerated table by a bridge theorem), `stack.go` (`min
 (`validJumpdest`, `codeBitmap`) and the snapshot/revert wrapper of `KVM.Call` (`kvm.go`).
 
 * Words are `Nat` below `2^256`; every operation reduces modulo `2^256`.
-* One call frame.  Opcodes whose semantics need other accounts or nested frames (`BALANCE`,
-  `EXTCODE*`, `RETURNDATA*`, `BLOCKHASH`, `SELFBALANCE`, `CALL*`, `CREATE*`, `SELFDESTRUCT`) end the
-  run with `Status.unsupported` as soon as they are fetched.
+* Frames: `step`/`runLoop`/`interp` are one `Interpreter.Run`; nested `CALL` and `STATICCALL` go through
+  the wrapper `callFrame` (`KVM.Call` / `KVM.StaticCall` of `kvm.go`: depth check, `CanTransfer`,
+  snapshot, touch / account creation, transfer, run, revert + gas rule), which recurses on
+  `n = 1025 - kvm.depth`; `createFrame` is a top-level `KVM.create`. Still `Status.unsupported` as soon
+  as fetched / entered: `BALANCE`, `EXTCODE*`, `RETURNDATA*`, `BLOCKHASH`, `SELFBALANCE`, `CALLCODE`,
+  `DELEGATECALL`, `CREATE*` opcodes, `SELFDESTRUCT`, precompiled contracts (addresses 1..8).
 * Gas is a `Nat` compared before each subtraction (`Contract.UseGas`), including the pre-Galaxias
   behaviour of charging the constant gas a second time together with the dynamic gas
   (`cost += dynamicCost; UseGas(cost)` in `Run`).
@@ -192,6 +195,8 @@ inductive OpKind where
   | log (n : Nat)
   | ret
   | revert
+  | call        -- CALL: nested frame through `Sub`
+  | staticcall  -- STATICCALL
   | unsupported
 
 structure OpInfo where
@@ -297,12 +302,12 @@ def opInfoN (post : Bool) (n : Nat) : Option OpInfo :=
   | 0x5a => some (mk (.env 0x5a) 0 1 gQuick)                 -- GAS
   | 0x5b => some (mk .jumpdest 0 0 1)
   | 0xf0 => some { mk .unsupported 3 1 32000 with dyn := true, memsz := true, writes := true, returns := true }
-  | 0xf1 => some { mk .unsupported 7 1 40 with dyn := true, memsz := true, returns := true }
+  | 0xf1 => some { mk .call 7 1 40 with dyn := true, memsz := true, returns := true }
   | 0xf2 => some { mk .unsupported 7 1 40 with dyn := true, memsz := true, returns := true }
   | 0xf3 => some { mk .ret 2 0 0 with dyn := true, memsz := true, halts := true }
   | 0xf4 => some { mk .unsupported 6 1 40 with dyn := true, memsz := true, returns := true }
   | 0xf5 => some { mk .unsupported 4 1 32000 with dyn := true, memsz := true, writes := true, returns := true }
-  | 0xfa => some { mk .unsupported 6 1 700 with dyn := true, memsz := true, returns := true }
+  | 0xfa => some { mk .staticcall 6 1 700 with dyn := true, memsz := true, returns := true }
   | 0xfd => some { mk .revert 2 0 0 with dyn := true, memsz := true, reverts := true, returns := true }
   | 0xff => some { mk .unsupported 1 0 0 with dyn := true, halts := true, writes := true }
   | _ => none
@@ -316,18 +321,68 @@ def OpKind.pops : OpKind → Nat
   | .calldataload => 1 | .calldatacopy => 3 | .codecopy => 3 | .pop => 1 | .mload => 1
   | .mstore => 2 | .mstore8 => 2 | .sload => 1 | .sstore => 2 | .jump => 1 | .jumpi => 2
   | .jumpdest => 0 | .push _ => 0 | .dup n => n | .swap n => n + 1 | .log n => n + 2
-  | .ret => 2 | .revert => 2 | .unsupported => 0
+  | .ret => 2 | .revert => 2 | .call => 7 | .staticcall => 6 | .unsupported => 0
 def OpKind.pushes : OpKind → Nat
   | .stop => 0 | .un _ => 1 | .bin _ => 1 | .tern _ => 1 | .exp => 1 | .sha3 => 1 | .env _ => 1
   | .calldataload => 1 | .calldatacopy => 0 | .codecopy => 0 | .pop => 0 | .mload => 1
   | .mstore => 0 | .mstore8 => 0 | .sload => 1 | .sstore => 0 | .jump => 0 | .jumpi => 0
   | .jumpdest => 0 | .push _ => 1 | .dup n => n + 1 | .swap n => n + 1 | .log _ => 0
-  | .ret => 0 | .revert => 0 | .unsupported => 0
-/-- kinds whose execution changes storage or logs -/
+  | .ret => 0 | .revert => 0 | .call => 1 | .staticcall => 1 | .unsupported => 0
+/-- kinds whose own execution changes storage or logs (nested frames: see `isCall`) -/
 def OpKind.modifies : OpKind → Bool
   | .sstore => true | .log _ => true | _ => false
 def OpKind.isUnsupported : OpKind → Bool
   | .unsupported => true | _ => false
+/-- kinds that run a nested frame -/
+def OpKind.isCall : OpKind → Bool
+  | .call => true | .staticcall => true | _ => false
+
+/-! ## world -/
+
+abbrev Storage := List (Word × Word)
+abbrev Log := List Word × Bytes
+
+def sload (st : Storage) (k : Word) : Word := ((st.find? (fun p => p.1 == k)).map (·.2)).getD 0
+def sstore (st : Storage) (k v : Word) : Storage := (k, v) :: st.filter (fun p => p.1 != k)
+
+/-- a state object as far as the VM sees it -/
+structure Account where
+  balance : Nat
+  nonce : Nat
+  code : Bytes
+  storage : Storage
+
+def Account.empty : Account := { balance := 0, nonce := 0, code := [], storage := [] }
+
+/-- the `StateDB`: live state objects (association list, first match wins) and the logs of the
+transaction (newest first, tagged with the emitting address) -/
+structure World where
+  accts : List (Word × Account)
+  logs : List (Word × Log)
+
+def World.find (w : World) (a : Word) : Option Account := (w.accts.find? (fun p => p.1 == a)).map (·.2)
+/-- what the getters of `StateDB` answer: a missing object reads as the empty account -/
+def World.get (w : World) (a : Word) : Account := (w.find a).getD Account.empty
+def World.set (w : World) (a : Word) (x : Account) : World :=
+  { w with accts := (a, x) :: w.accts.filter (fun p => p.1 != a) }
+/-- `StateDB.Exist` -/
+def World.exist (w : World) (a : Word) : Bool := (w.find a).isSome
+/-- `StateDB.Empty`: no object, or nonce = balance = 0 and no code -/
+def World.isEmpty (w : World) (a : Word) : Bool :=
+  let x := w.get a
+  x.nonce == 0 && x.balance == 0 && x.code.isEmpty
+/-- `GetOrNewStateObject` (what `AddBalance(addr, 0)` / `CreateAccount` of a missing address do) -/
+def World.touch (w : World) (a : Word) : World := if w.exist a then w else w.set a Account.empty
+def World.addBalance (w : World) (a : Word) (v : Nat) : World :=
+  w.set a { w.get a with balance := (w.get a).balance + v }
+def World.subBalance (w : World) (a : Word) (v : Nat) : World :=
+  w.set a { w.get a with balance := (w.get a).balance - v }
+/-- `Transfer(db, from, to, v)`: `SubBalance` then `AddBalance` -/
+def World.transfer (w : World) (src dst : Word) (v : Nat) : World := (w.subBalance src v).addBalance dst v
+def World.sload (w : World) (a k : Word) : Word := KV.Evm.sload (w.get a).storage k
+def World.sstore (w : World) (a k v : Word) : World :=
+  w.set a { w.get a with storage := KV.Evm.sstore (w.get a).storage k v }
+def World.addLog (w : World) (a : Word) (l : Log) : World := { w with logs := (a, l) :: w.logs }
 
 /-! ## machine -/
 
@@ -336,7 +391,7 @@ structure Env where
   input : Bytes
   hash : Bytes → Bytes
   post : Bool        -- Galaxias rules (v2 instruction set, dynamic gas charged alone)
-  readOnly : Bool
+  readOnly : Bool    -- `Interpreter.readOnly` while this frame runs
   address : Word
   caller : Word
   origin : Word
@@ -348,28 +403,42 @@ structure Env where
   gaslimit : Word
   chainid : Word
 
-abbrev Storage := List (Word × Word)
-abbrev Log := List Word × Bytes
-
 structure State where
   pc : Nat
   stack : List Word      -- head = top of stack
   mem : Bytes
   memCost : Nat          -- Memory.lastGasCost
   gas : Nat
-  storage : Storage
-  logs : List Log        -- newest first
-
-def sload (st : Storage) (k : Word) : Word := ((st.find? (fun p => p.1 == k)).map (·.2)).getD 0
-def sstore (st : Storage) (k v : Word) : Storage := (k, v) :: st.filter (fun p => p.1 != k)
+  world : World
 
 inductive ErrClass where
-  | oog | gasovf | underflow | overflow | invalid | jump | wprot | fuel
+  | oog | gasovf | underflow | overflow | invalid | jump | wprot | fuel | depth | balance | maxcode
+  | codestore | collision
   deriving DecidableEq, Repr
 
 inductive Status where
   | ok | revert | err (c : ErrClass) | unsupported
   deriving DecidableEq, Repr
+
+/-- a nested message call as `opCall` / `opStaticCall` hand it to `KVM.Call` / `KVM.StaticCall` -/
+structure CallReq where
+  static : Bool      -- STATICCALL
+  readOnly : Bool    -- `Interpreter.readOnly` of the calling frame (stays set below a static frame)
+  caller : Word
+  addr : Word
+  input : Bytes
+  gas : Nat
+  value : Nat
+
+/-- what `KVM.Call` / `StaticCall` return, together with the state they leave -/
+structure CallOut where
+  world : World
+  gasLeft : Nat
+  status : Status
+  ret : Bytes
+
+/-- the frame wrapper one level further down -/
+abbrev Sub := World → CallReq → CallOut
 
 /-- what a frame ends with (before the snapshot/revert logic of `Call`) -/
 structure Halt where
@@ -404,6 +473,12 @@ def envValue (env : Env) (s : State) (sel : Nat) : Word :=
 
 def arg (args : List Word) (i : Nat) : Word := args[i]?.getD 0
 
+/-- `max(x, y)` of two memory ranges, overflow if either overflows (`memoryCall`, `memoryStaticCall`) -/
+def memSize2 (a b : Option Nat) : Option Nat :=
+  match a, b with
+  | some x, some y => some (if x > y then x else y)
+  | _, _ => none
+
 /-- `operation.memorySize(stack)`: `none` = overflow -/
 def memSize (k : OpKind) (args : List Word) : Option Nat :=
   match k with
@@ -416,14 +491,49 @@ def memSize (k : OpKind) (args : List Word) : Option Nat :=
   | .log _ => calcMemSize (arg args 0) (arg args 1)
   | .calldatacopy => calcMemSize (arg args 0) (arg args 2)
   | .codecopy => calcMemSize (arg args 0) (arg args 2)
+  | .call => memSize2 (calcMemSize (arg args 5) (arg args 6)) (calcMemSize (arg args 3) (arg args 4))
+  | .staticcall => memSize2 (calcMemSize (arg args 4) (arg args 5)) (calcMemSize (arg args 2) (arg args 3))
   | _ => some 0
 
-/-- `operation.dynamicGas(...)`: `(cost, new lastGasCost)`; `none` = the function returned an error -/
-def dynGas (k : OpKind) (args : List Word) (s : State) (memorySize : Nat) : Option (Nat × Nat) :=
+/-- 20-byte address of a stack word (`Bytes20`) -/
+def toAddr (x : Word) : Word := x % 2 ^ 160
+/-- the precompiled contracts `PrecompiledContractsV0` live at addresses 1..8 -/
+def isPrecompile (a : Word) : Bool := decide (1 ≤ a ∧ a ≤ 8)
+
+/-- `callGas(availableGas, base, callCost)` (`gas.go`): all but one 64th, or the requested amount.
+`none` when `base` exceeds the available gas (the Go code wraps around and then fails the charge) -/
+def callGas (avail base : Nat) (callCost : Word) : Option Nat :=
+  if base > avail then none
+  else
+    let a := avail - base
+    let g := a - a / 64
+    if callCost ≥ U64 ∨ g < callCost then some g else some callCost
+
+/-- the part of `gasCall` / `gasStaticCall` before `callGas`: `(base, new lastGasCost)` -/
+def callBase (k : OpKind) (args : List Word) (s : State) (memorySize : Nat) : Option (Nat × Nat) :=
+  match k with
+  | .call =>
+    let value := arg args 2
+    let a := toAddr (arg args 1)
+    let g0 := (if value ≠ 0 ∧ s.world.isEmpty a then 25000 else 0) + (if s.world.exist a then 0 else 25000)
+              + (if value ≠ 0 then 9000 else 0)
+    (memoryGasCost s.mem.length s.memCost memorySize).bind fun (mg, last) =>
+      (safeAdd g0 mg).map fun b => (b, last)
+  | .staticcall => memoryGasCost s.mem.length s.memCost memorySize
+  | _ => none
+
+/-- `kvm.callGasTemp` as set by the dynamic gas function; `gasAvail` = `contract.Gas` at that point -/
+def callGasTemp (k : OpKind) (args : List Word) (s : State) (gasAvail memorySize : Nat) : Option Nat :=
+  (callBase k args s memorySize).bind fun (b, _) => callGas gasAvail b (arg args 0)
+
+
+/-- `operation.dynamicGas(...)`: `(cost, new lastGasCost)`; `none` = the function returned an error.
+`self` = `contract.Address()`, `gasAvail` = `contract.Gas` when the function runs -/
+def dynGas (k : OpKind) (args : List Word) (s : State) (self gasAvail memorySize : Nat) : Option (Nat × Nat) :=
   match k with
   | .exp => (safeAdd (byteLen (arg args 1) * 50) 10).map (fun g => (g, s.memCost))
   | .sstore =>
-    let cur := sload s.storage (arg args 0)
+    let cur := s.world.sload self (arg args 0)
     let y := arg args 1
     if cur = 0 ∧ y ≠ 0 then some (20000, s.memCost)
     else if cur ≠ 0 ∧ y = 0 then some (5000, s.memCost)
@@ -442,81 +552,120 @@ def dynGas (k : OpKind) (args : List Word) (s : State) (memorySize : Nat) : Opti
       (safeAdd g 375).bind fun g1 => (safeAdd g1 (n * 375)).bind fun g2 =>
         (safeMul (arg args 1) 8).bind fun m => (safeAdd g2 m).map fun t => (t, last)
   | .mload | .mstore | .mstore8 | .ret | .revert => memoryGasCost s.mem.length s.memCost memorySize
+  | .call | .staticcall =>
+    (callBase k args s memorySize).bind fun (b, last) =>
+      (callGas gasAvail b (arg args 0)).bind fun t => (safeAdd b t).map fun tot => (tot, last)
   | _ => some (0, s.memCost)
 
 /-- result of `operation.execute` -/
 inductive Exec where
-  | cont (results : List Word) (pc : Nat) (mem : Bytes) (storage : Storage) (logs : List Log)
+  | cont (results : List Word) (pc : Nat) (mem : Bytes) (world : World) (gasBack : Nat)
   | stop (st : Status) (ret : Bytes)
 
+/-- `Memory.Set(off, size, value)`: copies `min(size, len(value))` bytes -/
+def memSet (mem : Bytes) (off size : Nat) (val : Bytes) : Bytes :=
+  if size = 0 then mem else memWrite mem off (val.take size)
+
+/-- the tail of `opCall` / `opStaticCall` once `KVM.Call` has answered -/
+def afterCall (s : State) (mem : Bytes) (retOff retSize : Word) (out : CallOut) : Exec :=
+  match out.status with
+  | .unsupported => .stop .unsupported []
+  | .ok => .cont [1] (s.pc + 1) (memSet mem retOff retSize out.ret) out.world out.gasLeft
+  | .revert => .cont [0] (s.pc + 1) (memSet mem retOff retSize out.ret) out.world out.gasLeft
+  | .err _ => .cont [0] (s.pc + 1) mem out.world out.gasLeft
+
 /-- `operation.execute`, on the popped arguments; `pc` conventions as in `Run`: the returned pc is
-the one *after* the `pc++` of the loop (jumps return the destination itself) -/
-def exec (env : Env) (s : State) (k : OpKind) (args : List Word) (mem : Bytes) : Exec :=
+the one *after* the `pc++` of the loop (jumps return the destination itself). `cgt` is
+`kvm.callGasTemp`, `sub` the frame wrapper for nested calls. -/
+def exec (sub : Sub) (env : Env) (s : State) (k : OpKind) (args : List Word) (mem : Bytes) (cgt : Nat) : Exec :=
   let nxt := s.pc + 1
   match k with
   | .stop => .stop .ok []
-  | .un f => .cont [f (arg args 0) % W] nxt mem s.storage s.logs
-  | .bin f => .cont [f (arg args 0) (arg args 1) % W] nxt mem s.storage s.logs
-  | .tern f => .cont [f (arg args 0) (arg args 1) (arg args 2) % W] nxt mem s.storage s.logs
-  | .exp => .cont [wexp (arg args 0) (arg args 1)] nxt mem s.storage s.logs
-  | .sha3 => .cont [beVal (env.hash (memRead mem (arg args 0) (arg args 1))) % W] nxt mem s.storage s.logs
-  | .env sel => .cont [envValue env { s with mem := mem } sel % W] nxt mem s.storage s.logs
+  | .un f => .cont [f (arg args 0) % W] nxt mem s.world 0
+  | .bin f => .cont [f (arg args 0) (arg args 1) % W] nxt mem s.world 0
+  | .tern f => .cont [f (arg args 0) (arg args 1) (arg args 2) % W] nxt mem s.world 0
+  | .exp => .cont [wexp (arg args 0) (arg args 1)] nxt mem s.world 0
+  | .sha3 => .cont [beVal (env.hash (memRead mem (arg args 0) (arg args 1))) % W] nxt mem s.world 0
+  | .env sel => .cont [envValue env { s with mem := mem } sel % W] nxt mem s.world 0
   | .calldataload =>
     let x := arg args 0
-    .cont [if x ≥ U64 then 0 else beVal (getData env.input x 32)] nxt mem s.storage s.logs
+    .cont [if x ≥ U64 then 0 else beVal (getData env.input x 32)] nxt mem s.world 0
   | .calldatacopy =>
     let off := if arg args 1 ≥ U64 then U64 - 1 else arg args 1
-    .cont [] nxt (memWrite mem (arg args 0) (getData env.input off (arg args 2))) s.storage s.logs
+    .cont [] nxt (memWrite mem (arg args 0) (getData env.input off (arg args 2))) s.world 0
   | .codecopy =>
     let off := if arg args 1 ≥ U64 then U64 - 1 else arg args 1
-    .cont [] nxt (memWrite mem (arg args 0) (getData env.code off (arg args 2))) s.storage s.logs
-  | .pop => .cont [] nxt mem s.storage s.logs
-  | .mload => .cont [beVal (memRead mem (arg args 0) 32)] nxt mem s.storage s.logs
-  | .mstore => .cont [] nxt (memWrite mem (arg args 0) (word32 (arg args 1))) s.storage s.logs
-  | .mstore8 => .cont [] nxt (memWrite mem (arg args 0) [UInt8.ofNat (arg args 1 % 256)]) s.storage s.logs
-  | .sload => .cont [sload s.storage (arg args 0)] nxt mem s.storage s.logs
-  | .sstore => .cont [] nxt mem (sstore s.storage (arg args 0) (arg args 1)) s.logs
+    .cont [] nxt (memWrite mem (arg args 0) (getData env.code off (arg args 2))) s.world 0
+  | .pop => .cont [] nxt mem s.world 0
+  | .mload => .cont [beVal (memRead mem (arg args 0) 32)] nxt mem s.world 0
+  | .mstore => .cont [] nxt (memWrite mem (arg args 0) (word32 (arg args 1))) s.world 0
+  | .mstore8 => .cont [] nxt (memWrite mem (arg args 0) [UInt8.ofNat (arg args 1 % 256)]) s.world 0
+  | .sload => .cont [s.world.sload env.address (arg args 0)] nxt mem s.world 0
+  | .sstore => .cont [] nxt mem (s.world.sstore env.address (arg args 0) (arg args 1)) 0
   | .jump =>
-    if validJumpdest env.code (arg args 0) then .cont [] (arg args 0) mem s.storage s.logs
+    if validJumpdest env.code (arg args 0) then .cont [] (arg args 0) mem s.world 0
     else .stop (.err .jump) []
   | .jumpi =>
     if arg args 1 ≠ 0 then
-      if validJumpdest env.code (arg args 0) then .cont [] (arg args 0) mem s.storage s.logs
+      if validJumpdest env.code (arg args 0) then .cont [] (arg args 0) mem s.world 0
       else .stop (.err .jump) []
-    else .cont [] nxt mem s.storage s.logs
-  | .jumpdest => .cont [] nxt mem s.storage s.logs
-  | .push n => .cont [beVal (rightPad ((env.code.drop (s.pc + 1)).take n) n)] (s.pc + n + 1) mem s.storage s.logs
-  | .dup n => .cont (arg args (n - 1) :: args) nxt mem s.storage s.logs
+    else .cont [] nxt mem s.world 0
+  | .jumpdest => .cont [] nxt mem s.world 0
+  | .push n => .cont [beVal (rightPad ((env.code.drop (s.pc + 1)).take n) n)] (s.pc + n + 1) mem s.world 0
+  | .dup n => .cont (arg args (n - 1) :: args) nxt mem s.world 0
   | .swap n =>
     -- args has n+1 items: exchange the first and the last
-    .cont (arg args n :: ((args.drop 1).take (n - 1)) ++ [arg args 0]) nxt mem s.storage s.logs
+    .cont (arg args n :: ((args.drop 1).take (n - 1)) ++ [arg args 0]) nxt mem s.world 0
   | .log n =>
-    .cont [] nxt mem s.storage (((args.drop 2).take n, memRead mem (arg args 0) (arg args 1)) :: s.logs)
+    .cont [] nxt mem (s.world.addLog env.address ((args.drop 2).take n, memRead mem (arg args 0) (arg args 1))) 0
   | .ret => .stop .ok (memRead mem (arg args 0) (arg args 1))
   | .revert => .stop .revert (memRead mem (arg args 0) (arg args 1))
+  | .call =>
+    -- gas, addr, value, inOffset, inSize, retOffset, retSize
+    let value := arg args 2
+    let out := sub s.world
+      { static := false, readOnly := env.readOnly, caller := env.address, addr := toAddr (arg args 1),
+        input := memRead mem (arg args 3) (arg args 4),
+        gas := if value ≠ 0 then cgt + 2300 else cgt, value := value }
+    afterCall s mem (arg args 5) (arg args 6) out
+  | .staticcall =>
+    -- gas, addr, inOffset, inSize, retOffset, retSize
+    let out := sub s.world
+      { static := true, readOnly := env.readOnly, caller := env.address, addr := toAddr (arg args 1),
+        input := memRead mem (arg args 2) (arg args 3), gas := cgt, value := 0 }
+    afterCall s mem (arg args 4) (arg args 5) out
   | .unsupported => .stop .unsupported []
 
 def haltWith (s : State) (st : Status) (ret : Bytes) : Outcome := .halt { status := st, ret := ret, final := s }
 
 /-- dynamic gas of an entry (`operation.dynamicGas != nil`) -/
-def dynGasOf (info : OpInfo) (args : List Word) (s : State) (memorySize : Nat) : Option (Nat × Nat) :=
-  if info.dyn then dynGas info.kind args s memorySize else some (0, s.memCost)
+def dynGasOf (info : OpInfo) (args : List Word) (s : State) (self gasAvail memorySize : Nat) : Option (Nat × Nat) :=
+  if info.dyn then dynGas info.kind args s self gasAvail memorySize else some (0, s.memCost)
 /-- second `UseGas` of `Run`: the dynamic cost alone after Galaxias, constant + dynamic before -/
 def chargeOf (info : OpInfo) (post : Bool) (dynCost : Nat) : Nat :=
   if info.dyn then (if post then dynCost else info.gas + dynCost) else 0
 /-- `if memorySize > 0 { mem.Resize(memorySize) }` -/
 def growMem (mem : Bytes) (memorySize : Nat) : Bytes :=
   if memorySize > 0 then memResize mem memorySize else mem
+/-- `op == CALL && stack.Back(2).Sign() != 0` -/
+def callWithValue (k : OpKind) (args : List Word) : Bool :=
+  match k with
+  | .call => arg args 2 != 0
+  | _ => false
+/-- `kvm.callGasTemp` (0 for the other kinds) -/
+def cgtOf (k : OpKind) (args : List Word) (s : State) (gasAvail memorySize : Nat) : Nat :=
+  if k.isCall then (callGasTemp k args s gasAvail memorySize).getD 0 else 0
 
 /-- one iteration of the loop of `Interpreter.Run` -/
-def step (env : Env) (s : State) : Outcome :=
+def step (sub : Sub) (env : Env) (s : State) : Outcome :=
   match opInfo env.post (getOp env.code s.pc) with
   | none => haltWith s (.err .invalid) []
   | some info =>
     if info.kind.isUnsupported then haltWith s .unsupported []
     else if s.stack.length < info.minStack then haltWith s (.err .underflow) []
     else if s.stack.length > info.maxStack then haltWith s (.err .overflow) []
-    else if env.readOnly && info.writes then haltWith s (.err .wprot) []
+    else if env.readOnly && (info.writes || callWithValue info.kind (s.stack.take info.pops)) then
+      haltWith s (.err .wprot) []
     else if s.gas < info.gas then haltWith s (.err .oog) []
     else
       let args := s.stack.take info.pops
@@ -525,51 +674,128 @@ def step (env : Env) (s : State) : Outcome :=
       | some msz =>
         if toWordSize msz * 32 ≥ U64 then haltWith s (.err .gasovf) []
         else
-          match dynGasOf info args s (toWordSize msz * 32) with
+          match dynGasOf info args s env.address (s.gas - info.gas) (toWordSize msz * 32) with
           | none => haltWith s (.err .oog) []
           | some (dynCost, last) =>
             if s.gas - info.gas < chargeOf info env.post dynCost then haltWith s (.err .oog) []
             else
               let s1 : State := { s with gas := s.gas - info.gas - chargeOf info env.post dynCost,
                                          mem := growMem s.mem (toWordSize msz * 32), memCost := last }
-              match exec env s1 info.kind args s1.mem with
+              match exec sub env s1 info.kind args s1.mem (cgtOf info.kind args s (s.gas - info.gas) (toWordSize msz * 32)) with
               | .stop st ret => haltWith s1 st ret
-              | .cont results pc mem' storage' logs' =>
+              | .cont results pc mem' world' gasBack =>
                 .next { pc := pc, stack := results ++ s.stack.drop info.pops, mem := mem', memCost := last,
-                        gas := s1.gas, storage := storage', logs := logs' }
+                        gas := s1.gas + gasBack, world := world' }
 
-def runLoop (env : Env) : Nat → State → Halt
+def runLoop (sub : Sub) (env : Env) : Nat → State → Halt
   | 0, s => { status := .err .fuel, ret := [], final := s }
   | fuel + 1, s =>
-    match step env s with
+    match step sub env s with
     | .halt h => h
-    | .next s' => runLoop env fuel s'
+    | .next s' => runLoop sub env fuel s'
 
-/-- what `KVM.Call` / `StaticCall` hand back for one frame -/
-structure Result where
-  status : Status
-  ret : Bytes
-  storage : Storage
-  logs : List Log       -- oldest first
-  gasLeft : Nat
+def initState (world : World) (gas : Nat) : State :=
+  { pc := 0, stack := [], mem := [], memCost := 0, gas := gas, world := world }
 
-/-- snapshot / `RevertToSnapshot` / `gas = 0` logic of `KVM.Call` around `run` -/
-def finish (storage0 : Storage) (h : Halt) : Result :=
+/-- `Interpreter.Run`: empty code returns at once, otherwise the loop. The fuel `gas + 1` always
+suffices (every continuing step costs at least one unit of gas: `KV.Evm.run_total_gas`). -/
+def interp (sub : Sub) (env : Env) (world : World) (gas : Nat) : Halt :=
+  if env.code.isEmpty then { status := .ok, ret := [], final := initState world gas }
+  else runLoop sub env (gas + 1) (initState world gas)
+
+/-! ## the frame wrappers of `kvm.go` -/
+
+/-- environment constants of a transaction (block context, origin, gas price, instruction set) -/
+structure TxEnv where
+  hash : Bytes → Bytes
+  post : Bool
+  origin : Word
+  gasprice : Word
+  coinbase : Word
+  timestamp : Word
+  number : Word
+  gaslimit : Word
+  chainid : Word
+
+def TxEnv.frame (t : TxEnv) (code input : Bytes) (readOnly : Bool) (address caller callvalue : Word) : Env :=
+  { code, input, hash := t.hash, post := t.post, readOnly, address, caller, origin := t.origin, callvalue,
+    gasprice := t.gasprice, coinbase := t.coinbase, timestamp := t.timestamp, number := t.number,
+    gaslimit := t.gaslimit, chainid := t.chainid }
+
+/-- the error handling shared by `Call`, `StaticCall` (and `create`): on any error go back to the
+snapshot; keep the remaining gas only for `ErrExecutionReverted` -/
+def settle (snapshot : World) (h : Halt) : CallOut :=
   match h.status with
-  | .ok => { status := .ok, ret := h.ret, storage := h.final.storage, logs := h.final.logs.reverse, gasLeft := h.final.gas }
-  | .revert => { status := .revert, ret := h.ret, storage := storage0, logs := [], gasLeft := h.final.gas }
-  | .err c => { status := .err c, ret := [], storage := storage0, logs := [], gasLeft := 0 }
-  | .unsupported => { status := .unsupported, ret := [], storage := storage0, logs := [], gasLeft := 0 }
+  | .ok => { world := h.final.world, gasLeft := h.final.gas, status := .ok, ret := h.ret }
+  | .revert => { world := snapshot, gasLeft := h.final.gas, status := .revert, ret := h.ret }
+  | .err c => { world := snapshot, gasLeft := 0, status := .err c, ret := [] }
+  | .unsupported => { world := snapshot, gasLeft := 0, status := .unsupported, ret := [] }
 
-def initState (storage : Storage) (gas : Nat) : State :=
-  { pc := 0, stack := [], mem := [], memCost := 0, gas := gas, storage := storage, logs := [] }
+/-- `KVM.Call` / `KVM.StaticCall` with `n = 1025 - kvm.depth` levels left: `n = 0` is
+`kvm.depth > CallCreateDepth` -/
+def callFrame (t : TxEnv) : Nat → Sub
+  | 0, w, req => { world := w, gasLeft := req.gas, status := .err .depth, ret := [] }
+  | n + 1, w, req =>
+    if req.static then
+      -- StaticCall: snapshot, touch (`AddBalance(addr, 0)`), run read-only
+      let w1 := w.touch req.addr
+      if isPrecompile req.addr then { world := w, gasLeft := 0, status := .unsupported, ret := [] }
+      else
+        settle w (interp (callFrame t n)
+          (t.frame (w1.get req.addr).code req.input true req.addr req.caller 0) w1 req.gas)
+    else
+      -- Call
+      if req.value ≠ 0 ∧ (w.get req.caller).balance < req.value then
+        { world := w, gasLeft := req.gas, status := .err .balance, ret := [] }
+      else if ¬ w.exist req.addr ∧ ¬ isPrecompile req.addr ∧ req.value = 0 then
+        { world := w, gasLeft := req.gas, status := .ok, ret := [] }
+      else
+        let w1 := (w.touch req.addr).transfer req.caller req.addr req.value
+        if isPrecompile req.addr then { world := w, gasLeft := 0, status := .unsupported, ret := [] }
+        else
+          settle w (interp (callFrame t n)
+            (t.frame (w1.get req.addr).code req.input req.readOnly req.addr req.caller req.value) w1 req.gas)
 
-/-- the frame: empty code returns at once (`len(contract.Code) == 0`), otherwise the loop -/
-def run (env : Env) (storage : Storage) (gas : Nat) (fuel : Nat) : Result :=
-  if env.code.isEmpty then { status := .ok, ret := [], storage := storage, logs := [], gasLeft := gas }
-  else finish storage (runLoop env fuel (initState storage gas))
+/-- the wrapper as seen from a frame running at call depth `d` (`kvm.depth = d`) -/
+def callAtDepth (t : TxEnv) (d : Nat) : Sub := callFrame t (1025 - d)
 
-/-- fuel that always suffices (every non-halting step costs at least one unit of gas) -/
-def call (env : Env) (storage : Storage) (gas : Nat) : Result := run env storage gas (gas + 1)
+def maxCodeSize : Nat := 39231
+def createDataGas : Nat := 200
+
+/-- the code-deposit stage of `KVM.create` after an init run that ended without error:
+`maxCodeSizeExceeded`, `createDataGas`, `SetCode` -/
+def deposit (snapshot : World) (addr : Word) (h : Halt) : CallOut :=
+  if h.ret.length > maxCodeSize then { world := snapshot, gasLeft := 0, status := .err .maxcode, ret := h.ret }
+  else if h.final.gas < h.ret.length * createDataGas then
+    { world := snapshot, gasLeft := 0, status := .err .codestore, ret := h.ret }
+  else
+    { world := h.final.world.set addr { h.final.world.get addr with code := h.ret },
+      gasLeft := h.final.gas - h.ret.length * createDataGas, status := .ok, ret := h.ret }
+
+def finishCreate (snapshot : World) (addr : Word) (h : Halt) : CallOut :=
+  match h.status with
+  | .ok => deposit snapshot addr h
+  | _ => settle snapshot h
+
+/-- the world in which the init code runs: new account with nonce 1 (keeping the balance of an
+existing object), value transferred -/
+def createWorld (w0 : World) (caller addr : Word) (value : Nat) : World :=
+  (w0.set addr { Account.empty with balance := (w0.get addr).balance, nonce := 1 }).transfer caller addr value
+
+def bumpNonce (w : World) (a : Word) : World := w.set a { w.get a with nonce := (w.get a).nonce + 1 }
+
+/-- `KVM.create` for a top-level creation (`kvm.depth = 0`) at address `addr`; the snapshot is
+taken after the caller's nonce bump -/
+def createFrame (t : TxEnv) (w : World) (caller addr : Word) (initCode : Bytes) (gas value : Nat) : CallOut :=
+  if (w.get caller).balance < value then { world := w, gasLeft := gas, status := .err .balance, ret := [] }
+  else if ((bumpNonce w caller).get addr).nonce ≠ 0 ∨ ¬ ((bumpNonce w caller).get addr).code.isEmpty then
+    { world := bumpNonce w caller, gasLeft := 0, status := .err .collision, ret := [] }
+  else
+    finishCreate (bumpNonce w caller) addr
+      (interp (callFrame t 1024) (t.frame initCode [] false addr caller value)
+        (createWorld (bumpNonce w caller) caller addr value) gas)
+
+/-- top-level `KVM.Call` / `KVM.StaticCall` (`kvm.depth = 0`) -/
+def call (t : TxEnv) (w : World) (req : CallReq) : CallOut := callAtDepth t 0 w req
 
 end KV.Evm
